@@ -1,4 +1,25 @@
 TEXTS = {
+    "C09": {
+        "text": "Machine-checked Lean 4 theorem C09_holds: every run of the broker model (Model/Broker.lean: any number of "
+                "publishers, subscribers and publications; subscribe / re-subscribe / unsubscribe / publish begun, "
+                "entering the broker's mailbox, handled and returning in any interleaving with deliveries and "
+                "subscriber terminations) with fresh publication numbers is accepted by monC09, all four clauses, which "
+                "are phrased over client-visible events and their timestamps only: (1) a publication is taken up at "
+                "most once by a subscriber (re-subscribing does not duplicate); (2) only by an actor that may be "
+                "subscribed - some subscribe of it began before the publish returned and no unsubscribe lies "
+                "definitely after that subscribe and definitely before the publish; (3) if publish m1 returned before "
+                "publish m2 began no subscriber takes m2 up before m1 (every publisher's own order is respected); (4) "
+                "any two subscribers take the publications they both receive up in the same relative order. The proof "
+                "carries the global enqueue / handling order as a ghost (enq_order: returned-before-begun implies "
+                "enqueued earlier) and shows every subscriber's taken-up + in-flight sequence is a strictly "
+                "increasing subsequence of the handling order. The model is tied to the real Broker<T> by a "
+                "linearizability-style search on real histories.",
+        "design_ref": "DESIGN.md §5 C09",
+        "note": "Partial: exactly-once delivery by quiescence to definitely-subscribed live subscribers and the two "
+                "non-blocking clauses are trace-checked. Trusted: Lean kernel + axioms; Model/Broker.lean validated "
+                "by acceptance of real histories (1-3 publishers incl. Context::publish, 1-4 subscribers, 1-2 topics).",
+        "technique": "Lean 4 proof (ghost handling order, subsequence invariant) + linearizability check of real histories against the model",
+    },
     "C16": {
         "text": "Machine-checked Lean 4 theorems about systems of any number of actors with any parent -> child graph "
                 "(Model/Sys.lean: every system step is made of steps of the single-actor model): C16_kept - in every "
@@ -296,5 +317,5 @@ TEXTS = {
 _PENDING = "check under construction in this round: model + theorem not yet wired into ./check (see DESIGN.md build order); not claimed until its three obligations run end to end"
 NOT_APPLICABLE = [
     {"property_id": p, "reason": _PENDING}
-    for p in ["C09"]
+    for p in []
 ]
